@@ -15,6 +15,9 @@ types (`toGen`, `toSpec`) and defines the sequential application (`seqAdjust`).
   structurally equal in every modelled field, maps (`annotations`, `unified`) through `lookup`,
   with the two named weakenings (below).  `C03_general` is the same from ANY well-formed
   starting spec (the reply never depends on the container).
+* `C03_propagation_partial` — the same WITHOUT the guard "no mount propagation option": when
+  both ways succeed the specs agree in every field (`SpecEqCore`) except the rootfs
+  propagation, for which combined ⊑ sequential (`RootfsLe`, weakening 3).
 * per field family, as statements about the generator's per-field step functions (no
   `Except`, no externals): `C03_hooks`, `C03_rlimits`, `C03_args`, `C03_cgroups_path`,
   `C03_oom_score`, `C03_cpu`, `C03_memory`, `C03_pids`, `C03_hugepages`, `C03_unified`,
@@ -50,7 +53,8 @@ that clause:
   (the generator's sticky `propagation` variable makes the combined application fail where the
   sequential one succeeds) and `finding_rootfs_propagation_stale` (new finding, same shape as
   devRules-stale: the rootfs propagation raised for a mount a later plugin removes stays
-  raised sequentially);
+  raised sequentially); `C03_propagation_partial` says exactly what survives without this
+  clause;
 * original spec: distinct mount destinations, distinct device paths, environment entries
   `NAME=value` with distinct non-empty names — `guard_spec_duplicate_mounts`.
 NOT needed (weaker hypotheses than planned in DESIGN.md): duplicate keys inside one response
@@ -272,13 +276,14 @@ theorem demo_ok :
 /-! ### per-family theorems
 
 Every theorem: `h` = the creation request succeeded with final state `st'`; `hwf` = every
-plugin's adjustment is `WellFormed`.  `…G x a` is the generator's step for that field (the core
+plugin's adjustment satisfies the core guard `WellFormedCore` (mount propagation options are
+allowed here).  `…G x a` is the generator's step for that field (the core
 function of `Generate.lean` applied to the field `x` of the spec and the matching part of
 `toGen a`); the right-hand side applies the plugins' own adjustments one after another. -/
 
 section Families
 variable (c0 : Container) (rs : List (Plugin × Option Response)) (st' : State)
-  (h : run Quirks.fixed (initCreate c0) rs = .ok st') (hwf : ∀ a ∈ adjs rs, WellFormed a)
+  (h : run Quirks.fixed (initCreate c0) rs = .ok st') (hwf : ∀ a ∈ adjs rs, WellFormedCore a)
 include h hwf
 
 theorem C03_hooks (x : Oci.Hooks) : hooksG x st'.reply = (adjs rs).foldl hooksG x := by
@@ -448,9 +453,9 @@ theorem C03_general {ext : Externals} {bad : List Str}
     (hseq : seqAdjust ext s0 ((adjs rs).map toGen) = .ok sS) :
     ∃ sC, adjust ext s0 (toGen st'.reply) = .ok sC ∧ SpecEq sC sS := by
   rw [adjs_eq] at hwf hseq
-  obtain ⟨hrep, hc⟩ := run_chain c0 rs st' h hwf
+  obtain ⟨hrep, hc⟩ := run_chain c0 rs st' h (fun a ha => wellFormed_core a (hwf a ha))
   rw [hrep]
-  exact compose_main hi _ hc s0 sS hs0 hseq
+  exact compose_main hi _ hc (fun a ha => wellFormed_noProp a (hwf a ha)) s0 sS hs0 hseq
 
 /-- **C03.** For every original container `c0` and every chain `rs` of plugin responses whose
     adjustments are well-formed: if the creation request succeeds with combined reply
@@ -465,6 +470,48 @@ theorem C03 {ext : Externals} {bad : List Str}
     (hseq : seqAdjust ext (toSpec c0) ((adjs rs).map toGen) = .ok sS) :
     ∃ sC, adjust ext (toSpec c0) (toGen st'.reply) = .ok sC ∧ SpecEq sC sS :=
   C03_general hi c0 rs st' h hwf (toSpec c0) sS hs0 hseq
+
+/-- **C03 with mount propagation options** (only the core guard): then `AdjustMounts` can fail
+    on either side (`guard_propagation_sticky`), so BOTH successes are hypotheses; the specs
+    agree in every field except the rootfs propagation, where **weakening 3** holds: the
+    combined application raises it at most as far as the sequential one
+    (`finding_rootfs_propagation_stale` shows equality fails).  Full-strength statement, FALSE
+    of the code: `sC.rootfsPropagation = sS.rootfsPropagation`. -/
+theorem C03_propagation_partial {ext : Externals} {bad : List Str}
+    (hi : ext.injectCDI = some (recordingInjector bad) ∨ ext.injectCDI = none)
+    (c0 : Container) (rs : List (Plugin × Option Response)) (st' : State)
+    (h : run Quirks.fixed (initCreate c0) rs = .ok st') (hwf : ∀ a ∈ adjs rs, WellFormedCore a)
+    (s0 sS sC : Oci.Spec) (hs0 : SpecWF s0)
+    (hseq : seqAdjust ext s0 ((adjs rs).map toGen) = .ok sS)
+    (hcomb : adjust ext s0 (toGen st'.reply) = .ok sC) :
+    SpecEqCore sC sS ∧ RootfsLe sC.rootfsPropagation sS.rootfsPropagation := by
+  rw [adjs_eq] at hwf hseq
+  obtain ⟨hrep, hc⟩ := run_chain c0 rs st' h hwf
+  rw [hrep] at hcomb
+  exact compose_propagation hi _ hc s0 sS sC hs0 hseq hcomb
+
+/-- a chain outside `WellFormed` (a mount with `rshared`, removed by the next plugin) and a
+    host whose mounts are all shared -/
+def propA0 : Adjustment :=
+  { mounts := [{ destination := str "/m1", source := str "/shared", options := [str "rshared"] }] }
+
+def propChain : List (Plugin × Option Response) :=
+  [(str "00-a", some { adjust := some propA0 }),
+   (str "10-b", some { adjust := some { mounts := [{ destination := str "-/m1" }] } })]
+
+def propExt : Externals := { hostPropagation := fun _ => str "rshared" }
+
+/-- non-vacuity of `C03_propagation_partial`: the core guard holds, `WellFormed` does not, both
+    ways succeed — and the rootfs propagations differ (⊑, not =) -/
+example :
+    (adjs propChain).all wellFormedCore = true ∧ (adjs propChain).all wellFormed = false ∧
+    (match run Quirks.fixed (initCreate { id := str "c" }) propChain with
+     | .error _ => none
+     | .ok st' =>
+       match adjust propExt (toSpec { id := str "c" }) (toGen st'.reply),
+             seqAdjust propExt (toSpec { id := str "c" }) ((adjs propChain).map toGen) with
+       | .ok c, .ok s => some (c.rootfsPropagation, s.rootfsPropagation, decide (c.mounts = s.mounts))
+       | _, _ => none) = some ([], str "rshared", true) := by decide
 
 /-- non-vacuity of `C03`, `C03_general` and of every per-family theorem: the demo chain
     satisfies all hypotheses at once (three plugins, one not subscribed; every family touched;
